@@ -35,6 +35,17 @@ CLAIMED.update({
          TB + "Ideal arithmetic. FFT: linear-phase realisation is an assumption on the spectral core. Axioms: Reals.",
          "machine-checked proof in Coq (R arithmetic) + impulse-alignment measurements on all seven types", "DESIGN.md 7 C14"),
 })
+CLAIMED.update({
+ "C10": ("Coq theorems valid in every arithmetic (in particular the bit-exact binary64/binary32 instance): reset() of a freshly constructed resampler is the identity for all seven constructors (every control field, every buffer, the mask — with the reset and constructor formulas both regenerated from source), and reset() after an operation equals reset() before it for ratio/chunk setters, reset itself and every successful process_into_buffer of the four asynchronous types; hence reset() after any history returns the fresh state, and the deterministic step function does the rest.",
+         TB + "FFT types: shape preservation through process_into_buffer is compared on every trace, not proved. Axiom-free.",
+         "machine-checked proof in Coq (structural equalities on regenerated reset/constructor terms) + twin histories (prefix; reset; suffix) vs (fresh; suffix), bit-exact", "DESIGN.md 7 C10"),
+ "C11": ("Coq theorems (any arithmetic) characterising every per-channel stage of process_into_buffer channel by channel: history shift, input load (active channels only), interpolation (channel c's output = its own buffer at the shared instants; a masked channel's output buffer is returned untouched), the FFT per-channel combinator, and independence of the instants from audio and mask.",
+         TB + "The end-to-end projection statement is assembled from the stage lemmas by twin comparison on every trace (n-channel masked vs unmasked vs n single-channel runs, sentinel-filled outputs). Axiom-free.",
+         "machine-checked proof in Coq (structural induction over the channel lists) + twin-history correspondence on 1..8 channels", "DESIGN.md 7 C11"),
+ "C15": ("Coq theorems (ideal arithmetic): every kernel model (scalar, SSE f32/f64, AVX f32/f64, each with its exact lane assignment, fused or separate multiply-add and reduction tree) equals the exact dot product for every length in 8N, so all agree; a call that passes the asserts reads exactly [index, index+len). Each model is compared bit for bit with the real kernel on this CPU (random tables, every alignment, huge dynamic range, NaN-poisoned surroundings), and the kernels with each other within a few ulps of the sum of absolute products; streams with each kernel injected and with the CPU dispatch.",
+         TB + "The floating-point deviation bound is measured, not proved. NEON not compiled on this machine. Axioms: Reals.",
+         "machine-checked proof in Coq (induction over blocks of 8, ring) + bit-exact kernel correspondence", "DESIGN.md 7 C15"),
+})
 NOT_YET = {}
 ALL = ["C%02d" % i for i in range(1, 19)]
 
